@@ -69,7 +69,24 @@ package plot
 //@   requires [indices-in-range] 0 <= i && i < len(series) && 0 <= j && j < len(series) && series[i] != nil && series[j] != nil
 
 // timeSeries.iter: the iterator handed to lttb.Downsample walks the pushed points from the first one.
-// (The closure itself and go-tsz's iterator are not modelled: trusted.)
+// The closure is proved against go-tsz's iterator (stubs/tsz.spec) to satisfy the clauses of the
+// lttb.Iter type contract under the mapping  icur(closure) := tpos(it), ilen(closure) := tlen(it),
+// px(closure,k) := seconds(tT(it,k) ms), py(closure,k) := tV(it,k); the mapping itself (the trusted
+// contract of iter below) is a definition, not a proof.
+//@ func (*timeSeries).iter$1
+//@   property C17
+//@   returns (ps, err)
+//@   requires [captured-iterator] it != nil && 0 <= tpos(it) && tpos(it) <= tlen(it)
+//@   requires [non-negative-request] count >= 0
+//@   assume   [attack-shorter-than-292-years] forall k int :: 0 <= k && k < tlen(it) ==> tT(it, k) * 1000000 <= MaxInt64
+//@   modifies *it, ghost(tpos, it)
+//@   ensures [as-many-as-asked-or-left] len(ps) == min(count, tlen(it) - old(tpos(it))) && tpos(it) == old(tpos(it)) + len(ps) && (len(ps) > 0 ==> fresh(ps))
+//@   ensures [the-next-points-in-order-x-in-seconds] forall k int :: 0 <= k && k < len(ps) ==> ps[k].X == dur_seconds(tT(it, old(tpos(it)) + k) * 1000000) && ps[k].Y == tV(it, old(tpos(it)) + k)
+//@   loop 1
+//@     invariant 0 <= i && i <= count && len(ps) == i && cap(ps) >= count && tpos(it) == old(tpos(it)) + i && tpos(it) <= tlen(it) && it == old(it) && (cap(ps) > 0 ==> fresh(ps))
+//@     invariant forall k int :: 0 <= k && k < len(ps) ==> ps[k].X == dur_seconds(tT(it, old(tpos(it)) + k) * 1000000) && ps[k].Y == tV(it, old(tpos(it)) + k)
+//@     decreases count - i
+
 //@ func (*timeSeries).iter
 //@   property C17
 //@   trusted
